@@ -55,7 +55,7 @@ def make_impl(spec):
     bs = [BSplineBasis(b['order'], [float(x) for x in b['knots']], b['periodic']) for b in spec['bases']]
     shape = [nfun(b) for b in spec['bases']]
     ncomp = spec['dim'] + (1 if spec['rational'] else 0)
-    if spec.get('intcps') and all(Fr(x).denominator == 1 for pt in spec['cps'] for x in pt):
+    if spec.get('intcps') and all(Fr(x).denominator == 1 and abs(Fr(x)) < 2 ** 31 for pt in spec['cps'] for x in pt):
         arr = np.array([[int(x) for x in pt] for pt in spec['cps']], dtype=int).reshape(shape + [ncomp])
     else:
         arr = np.array([[float(x) for x in pt] for pt in spec['cps']], dtype=float).reshape(shape + [ncomp])
